@@ -265,7 +265,69 @@ class Model:
     # consistent rename in the library does not move them out of view: the attribute a public getter returns.
     ROLE_GETTERS = {"get_current_buffer_size": "_CURRENT_BUFFER_SIZE", "get_buffer_capacity": "_BUFFER_CAPACITY"}
 
+    def _inline_string_constants(self):
+        """Module-level string constants (`_MAPPING = "MAPPING"`, `_CONTENTS_KEY = "contents"`) are replaced by
+        their literal wherever they are read, so that tags and keys compared through a named constant are analysed
+        exactly like the literals they stand for.  Only names bound once, at module level, to a str literal."""
+        import re
+
+        consts = {}  # module name -> {name: value}
+        for mname, mod in self.modules.items():
+            if mname == ABC_MOD:
+                continue
+            bound = {}
+            for n in ast.walk(mod.tree):
+                tg = []
+                if isinstance(n, ast.Assign):
+                    tg = n.targets
+                elif isinstance(n, (ast.AugAssign, ast.AnnAssign)):
+                    tg = [n.target]
+                for t in tg:
+                    for x in ast.walk(t):
+                        if isinstance(x, ast.Name):
+                            bound[x.id] = bound.get(x.id, 0) + 1
+            cs = {}
+            for st in mod.tree.body:
+                if isinstance(st, ast.Assign) and len(st.targets) == 1 and isinstance(st.targets[0], ast.Name) and isinstance(st.value, ast.Constant) \
+                        and isinstance(st.value.value, str) and bound.get(st.targets[0].id) == 1 and re.match(r"^_?[A-Z][A-Z0-9_]*$", st.targets[0].id):
+                    cs[st.targets[0].id] = st.value.value
+            if cs:
+                consts[mname] = cs
+        if not consts:
+            return
+        n_inl = 0
+        for mname, mod in self.modules.items():
+            if mname == ABC_MOD:
+                continue
+            local = dict(consts.get(mname, {}))
+            for st in mod.tree.body:
+                if isinstance(st, ast.ImportFrom) and st.module:
+                    for dm, cs in consts.items():
+                        if dm.split(".")[-1] == st.module.split(".")[-1]:
+                            for a in st.names:
+                                if a.name in cs:
+                                    local[a.asname or a.name] = cs[a.name]
+            if not local:
+                continue
+
+            class _Inl(ast.NodeTransformer):
+                def visit_Name(self_, node):
+                    nonlocal n_inl
+                    if isinstance(node.ctx, ast.Load) and node.id in local:
+                        n_inl += 1
+                        return ast.copy_location(ast.Constant(value=local[node.id]), node)
+                    return node
+
+            mod.tree = _Inl().visit(mod.tree)
+            ast.fix_missing_locations(mod.tree)
+            for n in ast.walk(mod.tree):
+                for c in ast.iter_child_nodes(n):
+                    c._parent = n
+        if n_inl:
+            self.notes.append(f"{n_inl} reads of module-level string constants analysed as their literal values")
+
     def _canonicalise_roles(self):
+        self._inline_string_constants()
         self.role_alias = {}
         for name, mod in self.modules.items():
             if name == ABC_MOD:
@@ -669,7 +731,11 @@ class Model:
                 start = 0
         for k in mro[start:]:
             if name in k.cdict:
-                return k, k.cdict[name]
+                v = k.cdict[name]
+                if isinstance(v, FuncInfo):
+                    # a plain function stored in a class namespace by a class hook (`cls.m = m`) is a method
+                    v = k.cdict[name] = Method(v)
+                return k, v
         return None, None
 
     def abstract_names(self, cls):
